@@ -202,6 +202,119 @@ def scenario_r(mode='pass'):
   return fn
 
 
+def summary(d):
+  """What a watcher can tell apart in a state snapshot (TestState._asdict() is a base-type rendering)."""
+  rec = d['test_record']
+  rps = d.get('running_phase_state')
+  return (d['status'], len(rec.get('log_records', [])), len(rec.get('phases', [])),
+          rps.get('name') if rps else None,
+          tuple(sorted((k, m.get('outcome')) for k, m in rps.get('measurements', {}).items())) if rps else (),
+          rec.get('outcome'))
+
+
+def scenario_q(mode='pass'):
+  """Harness Q: a watcher that keeps watching until the state stops changing (not only until COMPLETED): every
+  change -- also log records captured after finalization -- must fire the event handed out with the last snapshot.
+  The watcher is attached from inside the first phase (no clock needed) and waits with a (virtual) timeout; a
+  timeout that happens while the snapshot is stale, twice in a row (the second one cannot be an explored early
+  timer at deviation bound 1), is a missed notification."""
+  htf.init()
+  import openhtf as h  # pylint: disable=g-import-not-at-top
+
+  def fn(sched):
+    res = {'seen': [], 'missed': [], 'watcher_done': False}
+    attached = threading.Event()
+    holder = {}
+
+    def watcher():
+      st = holder['test'].state
+      stale_timeouts = 0
+      while True:
+        snap, ev = st.asdict_with_event()
+        seen = summary(snap)
+        res['seen'].append(seen)
+        attached.set()
+        while True:
+          fired = ev.wait(0.05)
+          if fired:
+            stale_timeouts = 0
+            break
+          now = summary(st._asdict())  # pylint: disable=protected-access
+          if now != seen and not ev.is_set():
+            stale_timeouts += 1
+            if stale_timeouts >= 2:
+              res['missed'].append((seen, now))
+              res['watcher_done'] = True
+              return
+            continue
+          stale_timeouts = 0
+          if res.get('execute_returned') and now == seen:
+            res['watcher_done'] = True
+            return
+          if ev.is_set():
+            break
+
+    wt = threading.Thread(target=watcher, name='watcher')
+
+    @h.measures(h.Measurement('m'))
+    def p1(test):
+      wt.start()
+      attached.wait()
+      test.measurements.m = 1
+      test.logger.info('hello')
+
+    def p2(test):
+      if mode == 'stop':
+        return h.PhaseResult.STOP
+      return None
+
+    test = h.Test(p1, p2)
+    holder['test'] = test
+    ok = test.execute()
+    res['execute_returned'] = True
+    wt.join()
+    res['ok'] = ok
+    return res
+
+  return fn
+
+
+def execute_q(mode, choices):
+  htf.init()
+  from openhtf import util  # pylint: disable=g-import-not-at-top
+  from openhtf.core import test_state  # pylint: disable=g-import-not-at-top
+  sched, value = explore.run_under_scheduler(
+      scenario_q(mode), choices,
+      focus_targets=[util.SubscribableStateMixin, test_state.TestState._finalize, test_state.TestState.set_status_running,  # pylint: disable=protected-access
+                     test_state.TestState.mark_test_started],
+      focus_files=('openhtf/util/__init__.py',), max_steps=60000)
+  result = {'value': value if isinstance(value, dict) else repr(value), 'failure': repr(sched.failure) if sched.failure else None}
+  if isinstance(value, dict):
+    result['outcome_key'] = (len(value['seen']), bool(value['missed']), value.get('ok'))
+  else:
+    result['outcome_key'] = ('failure', repr(sched.failure or value)[:100])
+  return explore.Exec(list(choices), sched.points, result, sched.failure, sched.steps, len(sched.trace), sched.state_hashes)
+
+
+def check_q(mode):
+  def check(ex):
+    out = []
+    rep = {'part': 'Q', 'mode': mode, 'choices': ex.choices}
+    if ex.failure is not None:
+      out.append(('Q:%s:%s' % (mode, type(ex.failure).__name__), 'watcher on a real run ending %s: %s' % (mode, ex.failure), rep))
+      return out
+    v = ex.result['value']
+    if not isinstance(v, dict):
+      out.append(('Q:%s:harness-exception' % mode, 'scenario raised %r' % (v,), rep))
+      return out
+    for seen, now in v['missed']:
+      field = [n for n, a, b in zip(('status', 'log records', 'phase records', 'running phase', 'measurements', 'outcome'), seen, now) if a != b]
+      out.append(('Q:%s:change-without-notification:%s' % (mode, '+'.join(field)),
+                  'the state changed from %r to %r after the snapshot was taken but the event handed out with it was never set' % (seen, now), rep))
+    return out
+  return check
+
+
 def scenario_s(mode):
   """Narrow seam: a TestState driven directly through one finalization path, one watcher."""
   htf.init()
@@ -330,6 +443,13 @@ def run(tier):
     rep.add_part('R watcher on a real Test.execute() ending %s' % mode, states=max(1, r['states']), transitions=r['steps'],
                  traces_validated_against_impl=r['executions'], deviation_bound=bound_r, distinct_outcomes=len(r['outcomes']),
                  exhaustive=not r['capped'], decision_points_default=r['default_points'], samples=r['samples'] or [{'choices': []}])
+  for mode in (('pass',) if tier == 'quick' else ('pass', 'stop')):
+    r = explore.explore('Q:' + mode, lambda ch, mode=mode: execute_q(mode, ch), check_q(mode), 1,
+                        cap=300000 if tier == 'thorough' else 40000)
+    rep.merge_violations(r['violations'])
+    rep.add_part('Q watcher until quiescence on a real Test.execute() ending %s' % mode, states=max(1, r['states']), transitions=r['steps'],
+                 traces_validated_against_impl=r['executions'], deviation_bound=1, distinct_outcomes=len(r['outcomes']),
+                 exhaustive=not r['capped'], decision_points_default=r['default_points'], samples=r['samples'] or [{'choices': []}])
   bound_s = 2 if tier == 'quick' else 3
   for mode in ('abort', 'stop', 'timeout', 'raise', 'normal'):
     r = explore.explore('S:' + mode, lambda ch, mode=mode: execute_s(mode, ch), check_r('S-' + mode), bound_s,
@@ -358,6 +478,9 @@ def replay(art):
   elif r['part'] == 'S':
     ex = execute_s(r['mode'], r['choices'])
     bad = check_r('S-' + r['mode'])(ex)
+  elif r['part'] == 'Q':
+    ex = execute_q(r['mode'], r['choices'])
+    bad = check_q(r['mode'])(ex)
   else:
     ex = execute_r(r.get('mode', 'pass'), r['choices'])
     bad = check_r(r.get('mode', 'pass'))(ex)
